@@ -56,7 +56,7 @@ func TestCheck(t *testing.T) {
 	sched.RaceChild(child)
 	r := vk.Start("C09", "model_checking", 60*time.Second, 4*time.Minute)
 	sched.RunRaceParent(r, vk.Pick(r, 20, 120),
-		"data-race pass: the C09 concurrent harness bodies (Persist + readers + writer on one shared MemCachedStore) free-running on the unmodified storage package under the Go race detector, histories checked with porcupine; a race report or an oracle failure is a violation",
+		"data-race pass: the C09 concurrent harness bodies (Persist + readers + writers incl. PersistPrivate of 1-3 private layers, also through dao.Simple.PersistPrivate, on one shared MemCachedStore; flushed changesets recorded below the layer and judged) free-running on the unmodified storage package under the Go race detector, histories checked with porcupine; a race report or an oracle failure is a violation",
 		[]string{"the race pass is a sample of free-running schedules (the exhaustive part is the scheduler part); it exists because unsynchronised accesses are invisible to a cooperative scheduler",
 			"round 3, private-flush scenario (one process per backend, deterministic): transaction layer = GetPrivate(), callee layer = GetPrivate() of it, callee.SeekAsync, callee.Persist() once the scan goroutine has been seen inside the backend's Seek (marker file: real-time separation without a synchronisation edge, so the detector reports the unordered accesses and no fatal map error can occur), drain; the answer itself must be the reference"})
 }
